@@ -7,7 +7,7 @@
    comb / fuel / the script [evs] quantify over every reader behaviour (arbitrary
    chunking, 0-byte reads, an error at any offset, data together with EOF/error).
    [matches_desc H dg sz bs] = length bs = sz /\ dg = alg:H alg bs /\ dg is a valid digest. *)
-From Oras Require Import Base.Prelude Generated.GC05 Model.Verify Proofs.Verify Proofs.VerifyComplete Proofs.VerifyProxy Proofs.VerifyFuel Proofs.VerifyConc Proofs.VerifyTop Proofs.VerifyWriter.
+From Oras Require Import Base.Prelude Generated.GC05 Model.Verify Proofs.Verify Proofs.VerifyComplete Proofs.VerifyProxy Proofs.VerifyFuel Proofs.VerifyConc Proofs.VerifyTop Proofs.VerifyWriter Proofs.VerifyNames.
 
 (* ReadAll hands back data only when length and digest match and the reader held
    nothing else *)
@@ -267,6 +267,41 @@ Theorem C05_push_file_alias_refuted :
     file_exists s2' (b "a") dX = true /\ file_fetch s2' (b "a") dX = None.
 Proof. exact file_alias_refuted. Qed.
 Print Assumptions C05_push_file_alias_refuted.
+
+(* the FULL statement for the file store by names: resolveWritePath (lexical
+   filepath.Clean + traversal check) is part of the model ([file_push_name]); in every
+   history in which no pushed name resolves to the path of another name in use
+   ([no_alias], a condition on the names alone) a successful push makes matching content
+   visible and a failed one (incl. duplicate name, refused traversal) changes nothing *)
+Theorem C05_push_file_names :
+  forall (H : str -> str -> str) comb fuel s name d evs e s',
+    file_reach_names H s -> no_alias s name ->
+    file_push_name H comb true fuel s name d evs = (e, s') ->
+    (e = None ->
+       exists bs, file_fetch s' name d = Some bs /\ file_exists s' name d = true /\
+                  d_dg d = digest_of H (alg_of (d_dg d)) bs /\ valid_digest (d_dg d) = true /\
+                  ((name <> [] \/ assoc_get (f_d2p s) (d_dg d) = None) ->
+                   matches_desc H (d_dg d) (d_sz d) bs /\ exists rest, stream evs = bs ++ rest)) /\
+    (e <> None -> forall name' d', file_exists s' name' d' = file_exists s name' d' /\
+                                   file_fetch s' name' d' = file_fetch s name' d').
+Proof. exact file_push_name_spec. Qed.
+Print Assumptions C05_push_file_names.
+
+Theorem C05_file_names_visible_matches :
+  forall (H : str -> str -> str) s name d bs,
+    file_reach_names H s -> file_fetch s name d = Some bs ->
+    d_dg d = digest_of H (alg_of (d_dg d)) bs /\ valid_digest (d_dg d) = true.
+Proof. exact file_names_visible_matches. Qed.
+Print Assumptions C05_file_names_visible_matches.
+
+(* a name that leaves the working directory (cleaned form starts with "..", or absolute)
+   is refused before anything is written *)
+Theorem C05_file_traversal_refused :
+  forall (H : str -> str -> str) comb fuel s name d evs,
+    name <> [] -> name_in name (f_names s) = false -> resolve_name name = None ->
+    file_push_name H comb true fuel s name d evs = (Some ETraversal, s).
+Proof. exact file_push_traversal. Qed.
+Print Assumptions C05_file_traversal_refused.
 
 (* bad input never gets in, whatever the store *)
 Theorem C05_push_bad_rejected :
